@@ -59,6 +59,10 @@ def gen(ctx):
                 ops.append(f"s:{a}:{bits}:{rng.getrandbits(bits) or 1}")
             else:
                 ops.append(f"l:{a}:{bits}")
+                if rng.random() < 0.3:
+                    # the same load again after touching another region: lookups must not depend on the access history
+                    ops.append(f"l:{rng.choice(hot) & 0xFFFFFFFF if rng.choice(hot) >= 0 else 0}:8")
+                    ops.append(f"l:{a}:{bits}")
             if rng.random() < 0.5 and ops[-1].startswith("s"):
                 # read back, byte-wise and as a whole, and through an alias
                 ops.append(f"l:{a}:{bits}")
@@ -135,6 +139,7 @@ def oracle(ctx, name, line, ans):
     label = {}      # canonical location -> name of the listed defect family that may have disturbed it
     unknown = set() # locations whose contents the reference does not claim to know
     romval = {}     # canonical location inside a read-only range -> the byte first read there
+    seen_load = {}  # (address, width) -> value of the last identical load with no store since
 
     def disturb(loc, why=None):
         last.pop(loc, None)
@@ -179,6 +184,7 @@ def oracle(ctx, name, line, ans):
                 elif l[0] == "ext" and l[1] >= 0xFFF00 and kd == "ram":
                     extra.append(("int", l[1] - 0xFFF00))
         if q[0] == "s":
+            seen_load.clear()
             v = int(q[3])
             for i, (l, kd) in enumerate(zip(locs, kinds)):
                 if fam:
@@ -194,6 +200,12 @@ def oracle(ctx, name, line, ans):
                 disturb(l, "internal_memory_aliases_external_top" if name == "py" else (None if fam == "mixed" else fam))
             continue
         got = int(ob)
+        # reading is not an operation on memory: the same load, with no store in between, returns the same value
+        if (a, bits) in seen_load and seen_load[(a, bits)] != got:
+            ctx.report([name, "load_value_changes_without_a_store"], f"{name}: {op} reads {got:#x}; the same load read {seen_load[(a, bits)]:#x} before and nothing was stored in between",
+                       {"case": " ".join([cfg] + ops[:k + 1]), "got": got, "expected": seen_load[(a, bits)]})
+            return
+        seen_load[(a, bits)] = got
         if bits != 20 and fam is None and all(kd == "rom" for kd in kinds):
             # read-only window: whatever is read there first is what must be read there ever after, whatever was stored in between
             for i, l in enumerate(locs):
